@@ -189,6 +189,12 @@ inductive Ty where
   | struct (code : Option Code) (fs : Fields)
   | ptr (t : Ty)
   | iface (den : Den) (alts : Alts)
+  /-- A type with its own `Serializable.Encode` / `Deserializable.Decode` (the `if serializable, ok :=
+  valueI.(Serializable)` branch of `API.encode` / `API.decode`): serix writes the object code, if one is
+  registered, followed by whatever `Encode` returns.  The codec of the type is a parameter of the API;
+  the harness's custom types use the self-delimiting form `n :: payload` with `payload.length = n`
+  (`fixed`: the only payload length the type's `Decode` accepts), and the value *is* that encoding. -/
+  | custom (code : Option Code) (fixed : Option Nat)
 /-- Struct fields in serix order.  `cons opt t`: a field of type `t`, `opt`: tagged `optional` (a
 uint32 length marker precedes it, 0 = nil).  `emb ptr fs`: an anonymous struct (`ptr`: pointer to
 struct) without `inlined`, whose fields `fs` are flattened into the parent. -/
@@ -407,6 +413,7 @@ def Alts.find? : Alts → Nat → Option Ty
 def Ty.ownCode : Ty → Option Nat
   | .struct (some c) _ => some c.n
   | .byteArr _ (some c) _ _ => some c.n
+  | .custom (some c) _ => some c.n
   | _ => none
 
 /-- The object code `checkArrayMustOccur` finds for an element (registered settings of the
@@ -431,8 +438,13 @@ def mustOccurIf (validation : Bool) (r : Rules) (e : Ty) (vs : List Val) : Res U
 /-- Pointers can only be encoded when they point to a struct or an array
 (`encodeBasedOnType`, `case reflect.Ptr`). -/
 def Ty.ptrTarget : Ty → Bool
-  | .struct _ _ | .array _ _ _ _ | .byteArr _ _ _ _ | .time => true
+  | .struct _ _ | .array _ _ _ _ | .byteArr _ _ _ _ | .time | .custom _ _ => true
   | _ => false
+
+/-- The encoding a custom type of the harness returns / accepts: a length byte and that many bytes. -/
+def customOk (fixed : Option Nat) : Bytes → Bool
+  | [] => false
+  | n :: rest => rest.length == n.toNat && (match fixed with | none => true | some k => n.toNat == k)
 
 def kvKey : Val → Option Val
   | .kv k _ => some k
@@ -519,6 +531,7 @@ def enc : Ty → Bool → Val → Opts → Res Bytes
   | .ptr t, _, .some v, o => if t.ptrTarget then enc t false v o else .err
   | .iface _ _, _, .nil, _ => .err
   | .iface _ alts, _, .alt c v, o => encAlts alts c v o
+  | .custom code fixed, _, .x bs, _ => if customOk fixed bs then .ok (codeBytes code ++ bs) else .err
   | _, _, _, _ => .err
 
 /-- `encodeStructFields`. -/
@@ -637,6 +650,14 @@ def dec : Ty → Bytes → Opts → Res (Val × Nat)
   | .iface den alts, b, o =>
     -- GetObjectType peeks at the code; the alternative re-reads it as its own prefix
     if b.length < den.width then .err else decAlts alts (leNat (b.take den.width)) b o
+  | .custom code fixed, b, _ => do
+    let cw ← readCode code b
+    match b.drop cw with
+    | [] => .err
+    | n :: rest =>
+      if rest.length < n.toNat then .err
+      else if customOk fixed (n :: rest.take n.toNat) then .ok (.x (n :: rest.take n.toNat), cw + (1 + n.toNat))
+      else .err
 
 /-- `decodeStructFields`. -/
 def decFields : Fields → Bytes → Opts → Res (List Val × Nat)
